@@ -349,4 +349,13 @@ def do_replay(a, prop, groups):
 
 
 if __name__ == '__main__':
-    sys.exit(main(sys.argv[1:]))
+    try:
+        rc = main(sys.argv[1:])
+    except SystemExit:
+        raise
+    except BaseException:
+        # an internal error (e.g. the harness does not build against the tree) is "could not decide", never a verdict
+        traceback.print_exc()
+        print('ENGINE-ERROR driver exception')
+        rc = 3
+    sys.exit(rc)
